@@ -44,7 +44,8 @@ NewCont == [k |-> "newcont"]            \* a fresh Go map {"x": [0]} handed in b
 NewEmpty == [k |-> "newempty"]          \* a fresh empty Go map {} (a container without the key x: content -1)
 Fl(n) == [k |-> "float", n |-> n]       \* the Go float64 n.0: Tengo-equal to the int n, but another type
 MCVals2 == {I(2), S(<<115>>), NewCont}
-MCVals3 == {I(2), Fl(2), S(<<115>>), NewCont, NewEmpty}
+Bad == [k |-> "bad"]                    \* a Go value of a type FromInterface does not support (a struct): the call fails and changes nothing
+MCVals3 == {I(2), Fl(2), S(<<115>>), NewCont, NewEmpty, Bad}
 
 Srcs == {"P1", "P2", "P3", "P4", "P5"}
 Uses(s) == CASE s = "P1" -> {"a", "b"} [] s = "P2" -> {} [] s = "P3" -> {"a", "b"} [] s = "P4" -> {"a"} [] s = "P5" -> {"a"}
@@ -93,9 +94,13 @@ HeapAfter(v) == IF v.k = "newcont" THEN Append(heap, 0) ELSE IF v.k = "newempty"
 Shown(v, h) == IF v.k = "cont" THEN [k |-> "cont", n |-> h[v.id]] ELSE v     \* what the host sees of a value
 
 Add(n, v) == /\ Len(heap) < 4
+             /\ v.k # "bad"
              /\ vars' = [m \in DOMAIN vars \cup {n} |-> IF m = n THEN Fresh(v) ELSE vars[m]]
              /\ heap' = HeapAfter(v)
              /\ Call("Add", <<n, v>>, "ok") /\ UNCHANGED <<src, objs>>
+
+AddBad(n) == /\ Bad \in Vals
+             /\ Call("Add", <<n, Bad>>, "err") /\ UNCHANGED <<src, vars, objs, heap>>
 
 Remove(n) == /\ vars' = [m \in DOMAIN vars \ {n} |-> vars[m]]
              /\ Call("Remove", <<n>>, n \in DOMAIN vars) /\ UNCHANGED <<src, objs, heap>>
@@ -121,7 +126,7 @@ Get(i, n) == Call("Get", <<i, n>>, Shown(GetVal(objs[i], n), heap)) /\ UNCHANGED
 IsDefined(i, n) == Call("IsDefined", <<i, n>>, GetVal(objs[i], n) # U) /\ UNCHANGED vars4
 GetAll(i) == Call("GetAll", <<i>>, {<<n, Shown(objs[i].g[n], heap)>> : n \in objs[i].names}) /\ UNCHANGED vars4
 Set(i, n, v) == /\ Len(heap) < 4
-                /\ IF n \in objs[i].names
+                /\ IF n \in objs[i].names /\ v.k # "bad"
                    THEN objs' = [objs EXCEPT ![i].g[n] = Fresh(v)] /\ heap' = HeapAfter(v)
                         /\ Call("Set", <<i, n, v>>, "ok") /\ UNCHANGED <<src, vars>>
                    ELSE Call("Set", <<i, n, v>>, "err") /\ UNCHANGED vars4
@@ -141,6 +146,7 @@ Clone(i) == /\ Len(objs) < MaxObjs
 
 AllNames == Names \cup {"c", "d", "zz"}
 Next == \/ \E n \in Names, v \in Vals : Add(n, v)
+        \/ \E n \in Names : AddBad(n)
         \/ \E n \in Names : Remove(n)
         \/ Compile
         \/ \E i \in 1..Len(objs) :
@@ -163,7 +169,12 @@ Sharing == LET slots == {<<0, n>> : n \in DOMAIN vars} \cup UNION {{<<i, n>> : n
                 {<<x, heap[idAt(x)]>> : x \in {sl \in slots : idAt(sl) # 0}}>>
 View == <<src, KindOrNone(vars, "a"), KindOrNone(vars, "b"), DOMAIN vars, Len(objs),
           [i \in 1..Len(objs) |-> ObjView(objs[i])], Sharing>>
-EmitEdge == PrintT(<<"CASE", ToJson([src |-> src, calls |-> hist'])>>)
+\* what the host can observe of the state reached, beyond the return values of the calls: every object's variables, whether the
+\* script compiles now and what a newly compiled object holds (a call that "fails and changes nothing" is checked against this)
+FinalObs == [objs |-> [i \in 1..Len(objs) |-> {<<n, Shown(objs[i].g[n], heap)>> : n \in objs[i].names}],
+             compile |-> CompileOK,
+             fresh |-> {<<n, IF n \in DOMAIN vars THEN Shown(vars[n], heap) ELSE U>> : n \in DOMAIN vars \cup Defines(src)}]
+EmitEdge == PrintT(<<"CASE", ToJson([src |-> src, calls |-> hist', final |-> FinalObs'])>>)
 
 Bounded == Len(hist) < MaxLen
 
